@@ -2,6 +2,7 @@ package rules
 
 import (
 	"go/ast"
+	"go/token"
 	"go/types"
 
 	"verif/mlbcheck/chk"
@@ -24,6 +25,12 @@ func init() {
 			"the allocator's memory at quiescence; aliasing of *alloc values through element pointers.",
 		Run: runC01,
 		Mutants: []Mutant{
+			{Name: "tenant-set-dropped-on-pool-counter", File: "internal/allocator/allocator.go",
+				Old: "\t\tif a.poolIPsInUse[al.pool][ip.String()] == 0 {\n\t\t\tdelete(a.poolIPsInUse[al.pool], ip.String())\n",
+				New: "\t\tif a.poolIPsInUse[al.pool][ip.String()] == 0 {\n\t\t\tdelete(a.poolIPsInUse[al.pool], ip.String())\n\t\t\tdelete(a.servicesOnIP, ip.String())\n", Expect: "delete-servicesOnIP"},
+			{Name: "only-first-tenant-recorded", File: "internal/allocator/allocator.go",
+				Old: "\t\tif a.servicesOnIP[ip.String()] == nil {\n\t\t\ta.servicesOnIP[ip.String()] = map[string]bool{}\n\t\t}\n\t\ta.servicesOnIP[ip.String()][svc] = true\n",
+				New: "\t\tif len(a.servicesOnIP[ip.String()]) == 0 {\n\t\t\ta.servicesOnIP[ip.String()] = map[string]bool{svc: true}\n\t\t}\n", Expect: "SIBLING"},
 			{Name: "sharing-key-nonempty-instead-of-present", File: "controller/service.go",
 				Old: "\tif _, ok := svc.Annotations[AnnotationAllowSharedIP]; ok {\n\t\treturn svc.Annotations[AnnotationAllowSharedIP]\n\t}",
 				New: "\tif key := svc.Annotations[AnnotationAllowSharedIP]; key != \"\" {\n\t\treturn key\n\t}", Expect: "stable-annotation-wins"},
@@ -109,6 +116,9 @@ func c01Rest(p *chk.Prog, r *chk.Report) {
 	c03Unassign(p, r)
 	// ... and a recorded address is always known to the allocator: no exit of convergeBalancer before re-adoption
 	readoptBeforeExitRule(p, r)
+	// every tenant of an address is recorded (SIBLING, shared with C11): the sole-tenant exemption of checkSharing lets
+	// the only recorded tenant change its key in place
+	c11Sibling(p, r)
 	// the re-adoption of an existing allocation judges and records the ports and keys of the current call, not the
 	// remembered ones (KEY-THREAD, shared with C07): stale ports leave the current ones without an owner on the address
 	c07Thread(p, r)
@@ -148,7 +158,8 @@ func c01GuardShare(p *chk.Prog, r *chk.Report) {
 			chk.H("K", isParam(f, "svcKey")), chk.H("IP", rangeVal(f, rs)), chk.H("PORTS", isParam(f, "ports")),
 			chk.H("SK", func(e ast.Expr) bool {
 				return definedBy(g, "&key{sharing: A, backend: B}", chk.H("A", isParam(f, "sharingKey")), chk.H("B", isParam(f, "backendKey")))(e) ||
-					definedBy(g, "&K", chk.H("K", definedBy(g, "key{sharing: A, backend: B}", chk.H("A", isParam(f, "sharingKey")), chk.H("B", isParam(f, "backendKey")))))(e)
+					definedBy(g, "&K", chk.H("K", definedBy(g, "key{sharing: A, backend: B}", chk.H("A", isParam(f, "sharingKey")), chk.H("B", isParam(f, "backendKey")))))(e) ||
+					definedBy(g, "key{sharing: A, backend: B}", chk.H("A", isParam(f, "sharingKey")), chk.H("B", isParam(f, "backendKey")))(e)
 			}))
 		if w := forallBefore(f, g, rs, guard, site); w == "" {
 			ok = true
@@ -170,8 +181,40 @@ func c01GuardShare(p *chk.Prog, r *chk.Report) {
 	x.Check("Assign:assign-key", site.Pos(), isParam(f, "svcKey")(call.Args[0]), "", "a.assign is keyed by something other than svcKey")
 	// ports: alloc.ports is a copy of ports
 	cp := g.FindPat("copy(AL.ports, PORTS)", chk.H("PORTS", isParam(f, "ports")))
-	x.Check("Assign:alloc.ports-is-checked-ports", site.Pos(), len(cp) == 1 && f.SameExpr(cp[0].Node.(*ast.CallExpr).Args[0].(*ast.SelectorExpr).X, al) &&
-		!g.MustPass(chk.Site{}, func(n ast.Node) bool { return n == site.Top }, false, func(n ast.Node) bool { return n == cp[0].Top }).Found,
+	portsOK := len(cp) == 1 && f.SameExpr(cp[0].Node.(*ast.CallExpr).Args[0].(*ast.SelectorExpr).X, al) &&
+		!g.MustPass(chk.Site{}, func(n ast.Node) bool { return n == site.Top }, false, func(n ast.Node) bool { return n == cp[0].Top }).Found
+	if !portsOK && len(cp) == 0 {
+		// or the copy is made where the allocation is built: ports: slices.Clone(ports) / append([]T(nil), ports...)
+		lit := throughLocals(g, al)
+		if u, isU := ast.Unparen(lit).(*ast.UnaryExpr); isU && u.Op == token.AND {
+			lit = u.X
+		}
+		if cl, isCl := ast.Unparen(lit).(*ast.CompositeLit); isCl {
+			for _, el := range cl.Elts {
+				kv, isKV := el.(*ast.KeyValueExpr)
+				if !isKV {
+					continue
+				}
+				if k, isId := kv.Key.(*ast.Ident); !isId || k.Name != "ports" {
+					continue
+				}
+				pp := chk.H("PORTS", isParam(f, "ports"))
+				if f.MatchWith("slices.Clone(PORTS)", kv.Value, pp) != nil || f.MatchWith("append(E, PORTS...)", kv.Value, pp, chk.H("E", func(e ast.Expr) bool {
+					if f.IsNilLit(e) {
+						return true
+					}
+					if c, isC := ast.Unparen(e).(*ast.CallExpr); isC && len(c.Args) == 1 && f.IsNilLit(c.Args[0]) {
+						return true // []T(nil)
+					}
+					c, isC := ast.Unparen(e).(*ast.CompositeLit)
+					return isC && len(c.Elts) == 0
+				})) != nil {
+					portsOK = len(assignsTo(f, f.ParamNamed("ports"))) == 0
+				}
+			}
+		}
+	}
+	x.Check("Assign:alloc.ports-is-checked-ports", site.Pos(), portsOK,
 		"", "the allocation's ports are not the checked ports (copy(alloc.ports, ports) missing before a.assign)")
 	// assign itself releases the previous allocation first
 	fa := need(x, p, allocPkg, "Allocator", "assign")
@@ -212,7 +255,8 @@ func c01ShareBody(p *chk.Prog, r *chk.Report) {
 	g := f.Graph()
 	ip := c01IPKey(f, g)
 	existing := definedBy(g, "RECV.sharingKeyForIP[IP]", chk.H("IP", ip))
-	noKey := g.GPat(true, "E == nil", chk.H("E", existing))
+	// "the address has no sharing key yet": the looked-up pointer is nil, or - keys kept by value - the lookup's ok is false
+	noKey := chk.GSame(g.GPat(true, "E == nil", chk.H("E", existing)), chk.GBool(false, definedByIdx(g, f, "RECV.sharingKeyForIP[IP]", 1, chk.H("IP", ip))))
 	// the compatibility test: the call of sharingOK (found by its role), or its four comparisons spelt out at this place
 	sharePat := "sharingOK(E, SK)"
 	if _, pat, _, _ := c01ShareFn(p, f, existing, isParam(f, "sk")); pat != "" {
@@ -657,6 +701,15 @@ func c01KeyLifetime(p *chk.Prog, r *chk.Report) {
 		ok := g.Dominated(s, g.GPat(true, "len(RECV.portsInUse[K]) == 0", chk.H("K", func(e ast.Expr) bool { return f.SameExpr(e, k) })))
 		x.Check("Unassign:delete-sharingKeyForIP", s.Pos(), ok, "", "the sharing key of an address is dropped while other services may still own ports on it")
 	}
+	// likewise the set of tenants of an address: it is dropped as a whole only when it is empty, or together with the last
+	// port - not on a per-pool counter reaching zero (during a pool rename the other tenants are already counted under the
+	// new name) - or the remaining tenants become invisible to the sole-tenant exemption of checkSharing
+	for _, s := range g.FindPat("delete(RECV.servicesOnIP, K)") {
+		k := s.Node.(*ast.CallExpr).Args[1]
+		same := chk.H("K", func(e ast.Expr) bool { return f.SameExpr(e, k) })
+		ok := g.Dominated(s, chk.GOr(g.GPat(true, "len(RECV.servicesOnIP[K]) == 0", same), g.GPat(true, "len(RECV.portsInUse[K]) == 0", same)))
+		x.Check("Unassign:delete-servicesOnIP", s.Pos(), ok, "", "the whole tenant set of an address is dropped although services may still hold the address (the condition is not that the set, or the address's port map, is empty)")
+	}
 }
 
 // stickyReprocess walks from `from` and reports a path on which the result
@@ -713,7 +766,8 @@ func c01SharingInlined(p *chk.Prog, x *chk.R) {
 	g := f.Graph()
 	ip := c01IPKey(f, g)
 	existing := definedBy(g, "RECV.sharingKeyForIP[IP]", chk.H("IP", ip))
-	noKey := g.GPat(true, "E == nil", chk.H("E", existing))
+	// "the address has no sharing key yet": the looked-up pointer is nil, or - keys kept by value - the lookup's ok is false
+	noKey := chk.GSame(g.GPat(true, "E == nil", chk.H("E", existing)), chk.GBool(false, definedByIdx(g, f, "RECV.sharingKeyForIP[IP]", 1, chk.H("IP", ip))))
 	soleTenant := chk.GNever()
 	for _, rs := range f.RangeLoops(func(e ast.Expr) bool {
 		return f.MatchWith("RECV.servicesOnIP[IP]", e, chk.H("IP", ip)) != nil
